@@ -20,7 +20,7 @@
    p_file g              the arithmetic skeleton (Model/Arith.v) of the typed tree *)
 From Coq Require Import String List NArith ZArith Bool.
 From ACH Require Import Arith.
-From ACH Require Import ReaderValid ReaderValidFacts ReaderValidCanon LayoutRoundtrip FramingFacts DispatchBytes.
+From ACH Require Import ReaderValid ReaderValidFacts ReaderValidCanon ReaderValidProj LayoutRoundtrip FramingFacts DispatchBytes.
 From ACH Require Import Layouts RecRules Tables ReaderValidSites C01FileEx C01FileObl C01ValidObl.
 Import ListNotations.
 Local Open Scope string_scope.
@@ -125,6 +125,39 @@ Theorem C01_valid_roundtrip : forall f k,
 Proof. exact c01_valid_roundtrip. Qed.
 Print Assumptions C01_valid_roundtrip.
 
+(* the arithmetic hypothesis on the file AS WRITTEN: when the batch headers, entries and batch controls come
+   back with the same protected values (proj_keepsb), the projection of the file read back is the
+   projection of the file written *)
+Theorem C01_valid_roundtrip_orig : forall f k,
+  all_file (rec_fitsb LT) f = true -> dispatchb LT f = true ->
+  all_file (rec_passb RT) f = true -> all_file (rec_keepsb LT RT) f = true ->
+  proj_keepsb LT f = true -> batches_okb AT f = true ->
+  read_file_valid LT RT AT (write_file LT f ++ repeat nines k) = Some (parsed_file LT f, false).
+Proof. exact c01_valid_roundtrip_orig. Qed.
+Print Assumptions C01_valid_roundtrip_orig.
+
+Theorem C01_valid_batches_kept : forall f,
+  proj_keepsb LT f = true -> batches_okb AT (parsed_file LT f) = batches_okb AT f.
+Proof. exact c01_batches_okb_kept. Qed.
+Print Assumptions C01_valid_batches_kept.
+
+(* proj_keepsb from canonical values (canonb), record by record, for the seven layouts that carry protected fields *)
+Theorem C01_valid_canon_fields_kept : forall x L ss is_,
+  layout_of LT (r_kind x) = Some L -> role_simple L ss is_ = true ->
+  fitsb L (r_val x) = true -> canonb L (r_val x) = true -> fields_keptb LT ss is_ x = true.
+Proof. exact c01_canon_fields_kept. Qed.
+Print Assumptions C01_valid_canon_fields_kept.
+
+Theorem C01_valid_proj_roles :
+  role_simple L_BatchHeader hdr_str_fields hdr_int_fields = true
+  /\ role_simple L_IATBatchHeader hdr_str_fields hdr_int_fields = true
+  /\ role_simple L_EntryDetail (entry_str_fields KStd) entry_int_fields = true
+  /\ role_simple L_IATEntryDetail (entry_str_fields KIAT) entry_int_fields = true
+  /\ role_simple L_ADVEntryDetail (entry_str_fields KADV) entry_int_fields = true
+  /\ role_simple L_BatchControl ctl_str_fields ctl_int_fields = true
+  /\ role_simple L_ADVBatchControl ctl_str_fields ctl_int_fields = true.
+Proof. exact proj_roles_simple. Qed.
+
 (* ... in particular the writer's own blocked output *)
 Theorem C01_valid_roundtrip_padded : forall f,
   all_file (rec_fitsb LT) f = true -> dispatchb LT f = true ->
@@ -163,6 +196,11 @@ Print Assumptions C01_read_then_validate.
    NOC; an IAT file of 31 records; an ADV file) meet every hypothesis *)
 Theorem C01_valid_examples : vhyps ex_std = true /\ vhyps ex_ret = true /\ vhyps ex_iat = true /\ vhyps ex_adv = true.
 Proof. exact (conj ex_std_vhyps (conj ex_ret_vhyps (conj ex_iat_vhyps ex_adv_vhyps))). Qed.
+
+Theorem C01_valid_examples_orig :
+  proj_keepsb LT ex_std && batches_okb AT ex_std && proj_keepsb LT ex_ret && batches_okb AT ex_ret
+  && proj_keepsb LT ex_iat && batches_okb AT ex_iat && proj_keepsb LT ex_adv && batches_okb AT ex_adv = true.
+Proof. exact ex_orig_hyps. Qed.
 
 Theorem C01_valid_example_roundtrip :
   read_file_valid LT RT AT (write_file_padded LT ex_iat) = Some (parsed_file LT ex_iat, false).
